@@ -98,8 +98,60 @@ let run_model (c : case) : string list * (Editor.editor * Hist.op * Editor.edito
     end) c.steps in
   (toks, Stdlib.List.rev !trace)
 
-let () =
-  let cases_path = Sys.argv.(1) and res_path = Sys.argv.(2) in
+(* ---- special modes ------------------------------------------------------ *)
+let ints_of_tok s = if s = "-" then [] else Stdlib.List.map int_of_string (String.split_on_char ',' s)
+
+(* split FILE: lines "runes ends sba-bits charcount" from the harness; compares
+   with Break.split on the classes (the function the C01 theorems are about),
+   with the one-pass cluster list of the executable model, and with CharCount *)
+let mode_split path =
+  let ic = open_in path in
+  let n = ref 0 and bad = ref 0 in
+  (try while true do
+       let l = input_line ic in
+       (match String.split_on_char ' ' l with
+        | [rt; et; bt; cc] ->
+          incr n;
+          let rs = Stdlib.List.map z_of_int (ints_of_tok rt) in
+          let ends = ints_of_tok et in
+          let model = Stdlib.List.map (fun x -> let rec f = function O -> 0 | S k -> 1 + f k in f x)
+              (Segment.split_runes cls rs) in
+          let cl = Segment.clusters cls rs in
+          let run = Stdlib.List.rev (snd (Stdlib.List.fold_left (fun (i, acc) c -> let j = i + Stdlib.List.length c in (j, j :: acc)) (0, []) cl)) in
+          let bits = String.concat "" (Stdlib.List.mapi (fun i _ -> if Stdlib.List.mem (i + 1) model then "1" else "0") rs) in
+          let bits = if rs = [] then "-" else bits in
+          let ccm = int_of_string cc in
+          if model <> ends || run <> ends || bits <> bt || (ccm >= 0 && ccm <> Stdlib.List.length ends) then begin
+            incr bad;
+            if !bad <= 20 then Printf.printf "SPLITDIFF %s impl=%s model=%s sba=%s count=%s\n" rt et
+                (String.concat "," (Stdlib.List.map string_of_int model)) bt cc
+          end
+        | _ -> ())
+     done with End_of_file -> ());
+  close_in ic;
+  Printf.printf "SPLIT %d %d\n" !n !bad
+
+(* sweepcls FILE: lines "value bits"; the class the model's decision tree gives
+   must be the class the implementation's predicate bits give *)
+let mode_sweepcls path =
+  let ic = open_in path in
+  let n = ref 0 and bad = ref 0 in
+  (try while true do
+       let l = input_line ic in
+       (match String.split_on_char ' ' l with
+        | [rt; bt] ->
+          incr n;
+          let r = z_of_string rt in
+          let b = int_of_string bt in
+          let bl = Stdlib.List.init 14 (fun i -> b land (1 lsl i) <> 0) in
+          if Go.class_of_bits bl <> Go.go_class_of r then begin
+            incr bad; if !bad <= 20 then Printf.printf "CLSDIFF %s %s\n" rt bt end
+        | _ -> ())
+     done with End_of_file -> ());
+  close_in ic;
+  Printf.printf "SWEEPCLS %d %d\n" !n !bad
+
+let mode_cases cases_path res_path =
   let ic = open_in cases_path and ir = open_in res_path in
   (try
      while true do
@@ -124,3 +176,10 @@ let () =
      done
    with End_of_file -> ());
   close_in ic; close_in ir
+
+let () =
+  match Array.to_list Sys.argv with
+  | [_; "split"; p] -> mode_split p
+  | [_; "sweepcls"; p] -> mode_sweepcls p
+  | [_; c; r] -> mode_cases c r
+  | _ -> prerr_endline "usage: driver CASES RESULTS | driver split FILE | driver sweepcls FILE"; exit 2
